@@ -5,6 +5,7 @@ package aggregate
 
 import (
 	"fmt"
+	"math"
 
 	"github.com/efficientgo/core/errors"
 
@@ -84,8 +85,22 @@ func newVectorAccumulator(expr parser.ItemType) (vectorAccumulator, error) {
 			return float64(len(in))
 		}, nil
 	case "avg":
+		// Incremental mean, as in the reference engine and the grouped tables.
 		return func(in []float64) float64 {
-			return floats.Sum(in) / float64(len(in))
+			mean := in[0]
+			for i := 1; i < len(in); i++ {
+				v, count := in[i], float64(i+1)
+				if math.IsInf(mean, 0) {
+					if math.IsInf(v, 0) && (mean > 0) == (v > 0) {
+						continue
+					}
+					if !math.IsInf(v, 0) && !math.IsNaN(v) {
+						continue
+					}
+				}
+				mean += v/count - mean/count
+			}
+			return mean
 		}, nil
 	case "group":
 		return func(in []float64) float64 {
